@@ -1,5 +1,5 @@
 import Drivers.Common
-import RioModel.Model.JsonAction
+import RioModel.Model.JsonText
 open Lean
 
 namespace C06
@@ -70,23 +70,42 @@ def codecOf (case : Lean.Json) (j : Rio.Json.Json) : Except String Codec := do
     parseIp := fun s => match lookupAtom ip s with | .ok r => r | .error _ => none
     parseDt := fun s => match lookupAtom dt s with | .ok r => r | .error _ => none }
 
+/-- floats are only compared as "a float" (the implementation side prints its own normal form) -/
+partial def normFloats : Rio.Json.Json → Rio.Json.Json
+  | .flt _ => .flt "1.5"
+  | .arr xs => .arr (xs.map normFloats)
+  | .obj kvs => .obj (kvs.map fun kv => (kv.1, normFloats kv.2))
+  | j => j
+
 def handle (case : Lean.Json) : Except String Lean.Json := do
-  let j ← untag (← case.getObjVal? "j")
   let k ← Drv.str? case "k"
+  if k == "parse" then
+    let text ← Drv.str? case "text"
+    return Json.mkObj [("m", out ((parseAny text.toList).map normFloats))]
+  -- the value: shipped as a tagged tree, or as a document the model reads itself
+  let j? : Option Rio.Json.Json ←
+    match case.getObjVal? "j" with
+    | .ok tj => do pure (some (← untag tj))
+    | .error _ => do
+      let text ← Drv.str? case "text"
+      pure (parseText text.toList)
   let ty ← if k == "de" then Drv.str? case "ty" else pure k
   let r : Option Rio.Json.Json ←
-    match ty with
-    | "action" => pure ((deAction j).map serAction)
-    | "request" => do
-      let P ← codecOf case j
-      pure ((deRequest P j).map serRequest)
-    | "body_filter" => pure ((deBodyFilter 0 j).map serBodyFilter)
-    | "header_filter" => pure ((deHeaderFilter j).map serHeaderFilter)
-    | "status_code_update" => pure ((deStatusCodeUpdate j).map serStatusCodeUpdate)
-    | "rule_trace" => pure ((deRuleTrace j).map serRuleTrace)
-    | "header" => pure ((deHeader j).map serHeader)
-    | "paq" => pure ((dePathAndQuery j).map serPathAndQuery)
-    | _ => .error "ty"
+    match j? with
+    | none => pure none
+    | some j =>
+      match ty with
+      | "action" => pure ((deAction j).map serAction)
+      | "request" => do
+        let P ← codecOf case j
+        pure ((deRequest P j).map serRequest)
+      | "body_filter" => pure ((deBodyFilter 0 j).map serBodyFilter)
+      | "header_filter" => pure ((deHeaderFilter j).map serHeaderFilter)
+      | "status_code_update" => pure ((deStatusCodeUpdate j).map serStatusCodeUpdate)
+      | "rule_trace" => pure ((deRuleTrace j).map serRuleTrace)
+      | "header" => pure ((deHeader j).map serHeader)
+      | "paq" => pure ((dePathAndQuery j).map serPathAndQuery)
+      | _ => .error "ty"
   return Json.mkObj [("m", out r)]
 
 end C06
